@@ -526,6 +526,11 @@ func RunC11(r *Run) {
 		for _, h := range heads {
 			headCids = append(headCids, w.Cids[h])
 		}
+		if r.Choose("repeat-a-head", 5) == 0 {
+			// the caller's list may name a hash twice (two peers announced the same head): still one request
+			headCids = append(headCids, headCids[r.Choose("repeated-head", len(headCids))])
+			r.Probe("requested-heads-name-a-hash-twice")
+		}
 		cancelRate := 0
 		if r.Choose("random-cancel", 8) == 0 {
 			cancelRate = 60
